@@ -27,7 +27,7 @@ from ufl.core.multiindex import FixedIndex, Index, MultiIndex
 from ufl.tensors import as_matrix, as_tensor, as_vector
 
 from ufv import num as N
-from ufv.core import bounded_ok, proved, undecided, violated
+from ufv.core import bounded_ok, crash_text, deliberate, proved, undecided, violated
 from ufv.den import World, _power, cond, den, mi_values
 from ufv.opq import Opq
 from ufv.semv import check_same, complex_world, real_world
@@ -98,6 +98,8 @@ def build(run):
                 try:
                     r = call(ops)
                 except REFUSE as ex:
+                    if not deliberate(ex):
+                        return violated(f"crash instead of a result or a refusal: {crash_text(ex)}", reproduced=True, backend="exec")
                     if allow_refusal:
                         return proved("refused", sample=f"{tag}: raises {type(ex).__name__}: {ex}"[:200])
                     return violated(f"{tag}: refused a valid request: {ex}", replay={"operands": [repr(o) for o in ops]}, reproduced=True)
